@@ -334,3 +334,45 @@ def walk_no_nested(node):
         if isinstance(n, (ast.FunctionDef, ast.AsyncFunctionDef, ast.ClassDef, ast.Lambda)):
             continue
         stack.extend(reversed(list(ast.iter_child_nodes(n))))
+
+
+def inline_locals(fn, expr, depth=6):
+    """Source text of `expr` with every local that has exactly one plain definition `name = <expr>` in `fn` replaced by that expression
+    (recursively). A local with several definitions is rendered as name{def1 | def2}, so a comparison against the expected text fails and the
+    message shows which alternative values reach the use."""
+    def _fresh(e):
+        return ast.parse(src(e), mode="eval").body
+    defs = {}
+    for n in walk_no_nested(fn):
+        if isinstance(n, ast.Assign):
+            for t in n.targets:
+                if isinstance(t, ast.Name):
+                    defs.setdefault(t.id, []).append(n.value)
+                elif isinstance(t, (ast.Tuple, ast.List)):
+                    for k, e in enumerate(t.elts):
+                        if isinstance(e, ast.Name):
+                            v = n.value.elts[k] if isinstance(n.value, (ast.Tuple, ast.List)) and len(n.value.elts) == len(t.elts) else None
+                            defs.setdefault(e.id, []).append(v)
+        elif isinstance(n, (ast.AugAssign, ast.AnnAssign)) and isinstance(n.target, ast.Name):
+            defs.setdefault(n.target.id, []).append(None)
+        elif isinstance(n, (ast.For, ast.comprehension)):
+            for e in ast.walk(n.target):
+                if isinstance(e, ast.Name):
+                    defs.setdefault(e.id, []).append(None)
+    pnames = set(params(fn))
+
+    class T(ast.NodeTransformer):
+        def __init__(self, d):
+            self.d = d
+
+        def visit_Name(self, node):
+            if not isinstance(node.ctx, ast.Load) or node.id in pnames or node.id not in defs:
+                return node
+            ds = defs[node.id]
+            if len(ds) == 1 and ds[0] is not None and self.d > 0:
+                return T(self.d - 1).visit(_fresh(ds[0]))
+            if len(ds) > 1:
+                alts = " | ".join(src(x) if x is not None else "?" for x in ds)
+                return ast.Name(id="%s{%s}" % (node.id, alts), ctx=ast.Load())
+            return node
+    return src(T(depth).visit(_fresh(expr)))
